@@ -148,6 +148,7 @@ func crossInputs(fmtName string, salt int64, nWell, nNoise int) []corpusInput {
 			}, ins[i].Data)
 		}
 	}
+	ins = append(ins, structuredCorruptions(fmtName, salt+77, (nNoise+1)/2)...)
 	r := newRand(salt + 99)
 	for i := 0; i < nNoise; i++ {
 		var d []byte
@@ -171,14 +172,22 @@ func crossInputs(fmtName string, salt int64, nWell, nNoise int) []corpusInput {
 
 // ---------------------------------------------------------------- C06
 func deliveryDrive(args []string) error {
-	if err := need(args, 3, "delivery-drive <out.ndjson> <well-formed per format> <noise per format> [only-sid]"); err != nil {
+	if err := need(args, 3, "delivery-drive <out.ndjson> <well-formed per format> <noise per format> <model-texts.json|-> [only-sid]"); err != nil {
 		return err
 	}
 	nWell, _ := strconv.Atoi(args[1])
 	nNoise, _ := strconv.Atoi(args[2])
 	only := -1
-	if len(args) > 3 {
-		only, _ = strconv.Atoi(args[3])
+	if len(args) > 4 {
+		only, _ = strconv.Atoi(args[4])
+	}
+	// texts of the exhaustive models (every valid and corrupted text of the small pools), per format: each is decoded
+	// whole, byte by byte and in chunks of 2, 3 and 7
+	modelTexts := map[string][][]int{}
+	if len(args) > 3 && args[3] != "-" {
+		if err := readJSON(args[3], &modelTexts); err != nil {
+			return err
+		}
 	}
 	tw, err := newTrace(args[0])
 	if err != nil {
@@ -259,6 +268,27 @@ func deliveryDrive(args []string) error {
 			}
 			os.Remove(plain)
 			os.Remove(gz)
+		}
+		for _, mt := range modelTexts[fd.name] {
+			sid++
+			if only >= 0 && sid != only {
+				continue
+			}
+			data := unints(mt)
+			tab := newInterner()
+			emit := func(op, cfg string, mk func() io.Reader) {
+				items, capped, panicked := collect(func(v func(gItem) bool) (int, bool) { return fd.reader(mk(), v) })
+				tw.emit(crossEvent{Sid: sid, Fmt: fd.name, Op: op, Cfg: cfg, Ids: tab.ids(items), Capped: capped, Panic: panicked,
+					Input: ints(data[:min(len(data), 300)])})
+			}
+			emit("base", "mem", func() io.Reader { return bytes.NewReader(data) })
+			emit("cfg", "one-byte", func() io.Reader { return iotest.OneByteReader(bytes.NewReader(data)) })
+			for _, sz := range []int{2, 3, 7} {
+				sz := sz
+				emit("cfg", "chunk-"+strconv.Itoa(sz), func() io.Reader {
+					return &chunkReader{data: data, next: func() int { return sz }, withEOF: sz == 3}
+				})
+			}
 		}
 	}
 	return tw.close()
